@@ -57,8 +57,13 @@ Definition waits_ok (c : config) (o : obs) : bool :=
   forallb (fun i => forallb (fun k => match k_dl k with Some x => x <=? o_ret o | None => false end)
                             (calls_of i (o_calls o))) (must_wait c).
 
+(* the number of contexts found between a call's context and the one handed in is the number
+   of derivations the model's nesting has for that backend *)
+Definition depth_ok (c : config) (o : obs) : bool :=
+  forallb (fun k => match k_depth k with Some d => Nat.eqb d (depth c (k_be k)) | None => true end) (o_calls o).
+
 Definition corr_b (c : config) (o : obs) : bool :=
-  o_returned o && wf_config c && shape_ok c o && deadlines_ok c o && shared_ok c o && waits_ok c o.
+  o_returned o && wf_config c && shape_ok c o && deadlines_ok c o && shared_ok c o && waits_ok c o && depth_ok c o.
 
 Inductive case := Case (c : config) (slack : Z) (o : obs).
 
